@@ -79,7 +79,8 @@ class Parser(ICommParse):
 
         elif decode.dtype is EParseDataType.CHAR and len(unpacked) == 1:
             # decode bytes to string if possible
-            retdata = (unpacked[0].decode(),)
+            # sample content must never break decoding of the stream
+            retdata = (unpacked[0].decode(errors="replace"),)
 
         else:
             # otherwise return without formating
